@@ -66,13 +66,13 @@ def showRData : RData → String
   | .sig c a l o e i t n sg =>
     "SIG:" ++ toString c ++ ":" ++ toString a ++ ":" ++ toString l ++ ":" ++ toString o ++ ":" ++ toString e ++
       ":" ++ toString i ++ ":" ++ toString t ++ ":" ++ showName n ++ ":" ++ toHex sg
-  | .nsec n ts => "NSEC:" ++ showName n ++ ":" ++ showTypes ts
+  | .nsec n ts => "NSEC:" ++ showName n ++ ":" ++ showTypes ts.types
   | .nsec3 oo it salt hash b32 ts =>
     "NSEC3:" ++ showBool oo ++ ":" ++ toString it ++ ":" ++ toHex salt ++ ":" ++ toHex hash ++ ":" ++
-      (match b32 with | some l => toHex l | none => "!") ++ ":" ++ showTypes ts
+      (match b32 with | some l => toHex l | none => "!") ++ ":" ++ showTypes ts.types
   | .nsec3param oo it salt => "NSEC3PARAM:" ++ showBool oo ++ ":" ++ toString it ++ ":" ++ toHex salt
   | .cert ct tag alg d => "CERT:" ++ toString ct ++ ":" ++ toString tag ++ ":" ++ toString alg ++ ":" ++ toHex d
-  | .csync serial flags ts => "CSYNC:" ++ toString serial ++ ":" ++ toString flags ++ ":" ++ showTypes ts
+  | .csync serial flags ts => "CSYNC:" ++ toString serial ++ ":" ++ toString flags ++ ":" ++ showTypes ts.types
   | .tlsa u sl m d => "TLSA:" ++ toString u ++ ":" ++ toString sl ++ ":" ++ toString m ++ ":" ++ toHex d
   | .sshfp a f d => "SSHFP:" ++ toString a ++ ":" ++ toString f ++ ":" ++ toHex d
   | .openpgpkey d => "OPENPGPKEY:" ++ toHex d
